@@ -89,6 +89,8 @@ pub struct Hist {
     pub light: bool,
     pub resyncs: u32,
     pub proto_n: u64,
+    /// (values alive) - (values held in arenas) when this history started; must never change
+    pub value_skew: i64,
     /// Miri mode: only drive the calls (incl. hold-all-then-write patterns) and keep the model in
     /// step; the functional oracles run natively
     pub fast: bool,
@@ -118,7 +120,8 @@ impl Hist {
     pub fn new(mut w: Box<dyn WorldApi>, prop: &str, is_set: bool, g: Gen, replay: serde_json::Value) -> Hist {
         w.reset(2, 2);
         let (slot, scratch) = if is_set { (Slot::Set(0), Slot::Set(1)) } else { (Slot::Map(0), Slot::Map(1)) };
-        Hist { w, slot, scratch, m: Model::new(), g, f: Flags::for_prop(prop), prop: prop.to_string(), canonical: true, recent: VecDeque::new(), step_no: 0, replay, sweep_every: 1, hw_reach: 1, is_set, light: false, resyncs: 0, proto_n: 0, fast: false }
+        let value_skew = w.value_accounting().map_or(0, |(l, p)| l - p as i64);
+        Hist { w, slot, scratch, m: Model::new(), g, f: Flags::for_prop(prop), prop: prop.to_string(), canonical: true, recent: VecDeque::new(), step_no: 0, replay, sweep_every: 1, hw_reach: 1, is_set, light: false, resyncs: 0, proto_n: 0, value_skew, fast: false }
     }
 
     fn replay_info(&self) -> serde_json::Value {
@@ -354,7 +357,34 @@ impl Hist {
         run!(self.f.shape, "shape", self.check_shape(ev, op, &pre, &pre_shape, &post_shape));
         run!(self.f.arena, "arena", self.check_arena(ev, op, &post_shape));
         run!(self.f.clone, "clone", self.check_clone(ev));
+        let own_values = self.f.arena || (self.f.clone && matches!(op, Op::Replace(_))) || (self.f.panic && injected);
+        run!(self.f.arena || self.f.clone || self.f.panic, "value-accounting", self.check_values(ev, op, own_values));
         Flow::Continue
+    }
+
+    /// conservation of values: alive in the process == physically present in the arenas
+    fn check_values(&mut self, ev: &mut Ev, op: &Op, own: bool) -> Vec<(String, String)> {
+        let (live, phys) = match self.w.value_accounting() {
+            Some(x) => x,
+            None => return vec![],
+        };
+        let skew = live - phys as i64;
+        ev.count("values/accounting_checks", 1);
+        ev.max("values/max_alive", live.max(0) as u64);
+        if skew == self.value_skew {
+            return vec![];
+        }
+        let was = self.value_skew;
+        self.value_skew = skew;
+        if !own {
+            ev.count("foreign/value_accounting", 1);
+            return vec![];
+        }
+        let kind = if skew > was { "leaked" } else { "owned-twice" };
+        vec![(
+            format!("values/{}/after={}", kind, op_name(op)),
+            format!("after {:?}: {} values are alive in the process, {} are held in the node arenas of the maps (difference was {} before the call): {}", op, live, phys, was, if skew > was { "values that no map owns any more were never dropped (leaked)" } else { "more values are held than exist: one value has two owners (bitwise copy) or was dropped while still stored" }),
+        )]
     }
 
 
